@@ -34,6 +34,10 @@ BEHS = {0: lambda i, argv: Beh(obey=0.0), 1: lambda i, argv: Beh(obey=0.15), 2: 
 GT = 0.3
 
 
+def _gt():
+    return rt.S.get('gt', GT)
+
+
 def _probe(w):
     """every read-only request is answered at once, without the loop turning"""
     ok = True
@@ -65,9 +69,9 @@ def c05_block(e1: int, p1: int, e2: int, p2: int, g2: int, d: int) -> bool:
         k.behaviour = BEHS[S.get('beh', 2)]
         w.clock.watchdog = 5.0
         warm = S.get('warm', 0)
-        wa = w.mk_watcher('a', numprocesses=S.get('n0', 2), graceful_timeout=GT, warmup_delay=warm,
+        wa = w.mk_watcher('a', numprocesses=S.get('n0', 2), graceful_timeout=_gt(), warmup_delay=warm,
                           respawn=S.get('respawn', True))
-        wb = w.mk_watcher('b', numprocesses=1, graceful_timeout=GT)
+        wb = w.mk_watcher('b', numprocesses=1, graceful_timeout=_gt())
         w.boot([wa, wb])
         if S.get('dmax', 0) > 0 and d > 0:
             k.injections.append({'at_call': k.calls + d, 'victim': ('nth', 0), 'status': core.status_signal(9)})
@@ -100,7 +104,7 @@ def c05_block(e1: int, p1: int, e2: int, p2: int, g2: int, d: int) -> bool:
                 pass
             ok = _probe(w) and ok
             # let everything finish; all waits are bounded by the grace periods and warm-up delays
-            bound = 4 * GT + 6 * warm + 0.5
+            bound = 4 * _gt() + 6 * warm + 0.5
             t_lim = w.clock.now + 3 * bound + 5.0
             try:
                 w.run_until(lambda: all(r.replies for e, r in sc.reqs if r.msg['properties'].get('waiting')) and
@@ -181,11 +185,13 @@ def plan(tier):
         if not q:
             sh.append({'e1': e, 'beh': 1, 'dmax': 10})
             sh.append({'e1': e, 'beh': 0, 'warm': 0.3})
+    for e in (4, 6, 8, 9, 11):      # graceful_timeout 0 with workers that ignore the stop signal
+        sh.append({'e1': e, 'beh': 2, 'gt': 0})
     sh.append({'e1': 12, 'beh': 0, 'respawn': False})
     sh.append({'e1': 3, 'beh': 0, 'warm': 0.3})
     return [
         Cond('c05_block', shards=sh, budget=240 if q else 1500, twins=2,
              bounds={'e1': 'S: shard key over the %d-event menu' % len(EVENTS), 'e2': 'S: same menu', 'p1,p2': 'R[-1,2]',
                      'g2': 'S{now, 1 turn, quiescence}', 'probes': 'all of %r after every event' % (READONLY,), 'd': 'R[0,dmax]',
-                     'beh': 'S{obey, obey after 0.15 s, ignore}', 'graceful_timeout': '0.3 s', 'warmup_delay': 'S{0, 0.3}'}),
+                     'beh': 'S{obey, obey after 0.15 s, ignore}', 'graceful_timeout': 'S{0.3 s, 0}', 'warmup_delay': 'S{0, 0.3}'}),
     ]
